@@ -1,31 +1,16 @@
-from typing import List, Tuple
+from typing import List
 from vp.api import P, harness, in_shard, reached
-from tornado import escape
-
-def no_sur(s):
-    return all(not (0xD800 <= ord(c) <= 0xDFFF) for c in s)
+from tornado import template as T
 
 def pre_a(s: str) -> bool:
-    return len(s) <= P.L and no_sur(s)
+    return len(s) <= 1
 
-@harness(pre=pre_a, quick=dict(L=4, timeout=120))
+@harness(pre=pre_a, quick=dict(timeout=30))
 def h_a(s: str):
-    e = escape.xhtml_escape(s)
-    for ch in "<>\"'":
-        assert ch not in e
-    t = e.replace("&amp;", "\x00").replace("&lt;", "\x00").replace("&gt;", "\x00").replace("&quot;", "\x00").replace("&#x27;", "\x00")
-    assert "&" not in t
-
-@harness(pre=pre_a, quick=dict(L=4, timeout=120))
-def h_b(s: str):
-    e = escape.xhtml_escape(s)
-    assert escape.xhtml_unescape(e) == s
-
-def pre_c(s: str) -> bool:
-    return len(s) <= P.L
-
-@harness(pre=pre_c, quick=dict(L=4, timeout=120))
-def h_c(s: str):
-    e = escape.xhtml_escape(s)
-    for ch in "<>\"'":
-        assert ch not in e
+    t = T.Template("a{{ s }}")
+    from io import StringIO
+    b = StringIO()
+    print("x", file=b)
+    b2 = StringIO()
+    b2.write("y")
+    assert False, (t.code, b.getvalue(), b2.getvalue(), type(b).__name__)
